@@ -423,7 +423,19 @@ func (s *Sim) doPurge(op Op) *Step {
 		}
 	}
 	st := Step{Op: op}
-	st.Res = Exec(b, nil, &st.Op)
+	if s.nsteps%2 == 0 {
+		// purge through a handle opened just now, which has not opened any collection itself
+		be := s.Env.Buckets[op.Bucket]
+		if fresh, err := rosmar.OpenBucket(be.URL, be.Name, rosmar.CreateOrOpen); err == nil {
+			st.Res = Exec(fresh, nil, &st.Op)
+			fresh.Close(context.Background())
+			s.Ctx.Count("purges_through_a_fresh_handle", 1)
+		} else {
+			st.Res = Exec(b, nil, &st.Op)
+		}
+	} else {
+		st.Res = Exec(b, nil, &st.Op)
+	}
 	s.Log = append(s.Log, st)
 	s.Ctx.Count("purges", 1)
 	s.Ctx.Cell(fmt.Sprintf("Purge|tombs=%d", min64(want, 3)))
